@@ -577,6 +577,7 @@ func runC19(tier string, seed uint64) int {
 			tried++ // a repeat of a signature already reported in this run (listed findings never count)
 		}
 	}
+	canaryHits := rp.canaries()
 	var samples []interface{}
 	for k := 0; k < len(outs) && len(samples) < 3; k += 1 + len(outs)/3 {
 		c := outs[k].c
@@ -592,23 +593,25 @@ func runC19(tier string, seed uint64) int {
 			"distinct_nontrivial": len(cellsSeen),
 			"rule": fmt.Sprintf("one evaluation = one cell (conflict kind, n, delivery positions of the conflicting documents, order of the other priorities) executed in one OS process through list (directory API, ResourceInfos API, with and without stop-on-error), diff in both directions and, without admin policies, list --exposure, next to its conflict-free control; "+
 				"cells are enumerated completely for same-priority/out-of-range priorities with n <= %d, duplicate ANP names with n <= %d, duplicate NetworkPolicy names with n <= 6, pods of one owner with n <= 5, and sampled for n up to 64; distinct = distinct (kind, n, i, j)", full, full/2),
-			"samples":                 samples,
-			"exhaustive":              false,
-			"exhaustive_part":         fmt.Sprintf("all (kind, n, i, j, base order) cells listed in rule up to the stated n; larger n sampled"),
-			"cells_by_kind":           byKind,
-			"commands_rejecting":      rejected,
-			"failing_cells":           len(bad),
-			"known_findings_observed": len(rp.known),
-			"runs_per_hour":           perHour(len(cells), rp.start),
-			"fault_kinds":             byKind,
-			"simulated_time":          "none",
-			"real_components":         "all of /repo on real files; the conflict-free control runs in the same process",
-			"stubbed_components":      "none",
+			"samples":                     samples,
+			"exhaustive":                  false,
+			"exhaustive_part":             fmt.Sprintf("all (kind, n, i, j, base order) cells listed in rule up to the stated n; larger n sampled"),
+			"cells_by_kind":               byKind,
+			"commands_rejecting":          rejected,
+			"failing_cells":               len(bad),
+			"known_findings_observed":     len(rp.known),
+			"canary_witnesses_reproduced": canaryHits,
+			"runs_per_hour":               perHour(len(cells), rp.start),
+			"fault_kinds":                 byKind,
+			"simulated_time":              "none",
+			"real_components":             "all of /repo on real files; the conflict-free control runs in the same process",
+			"stubbed_components":          "none",
 		},
 		Assumptions: []string{
 			"exactly one conflict is injected per cell, so the error can be required to name it",
 			"naming the conflict = the error text or a fatal Errors() entry contains the name of a conflicting resource (or its owner), the offending priority value, or for the two BANP kinds the word baseline; message constants of the repository are not mirrored",
 			"a panic on the conflicting input is left to C12; it is not counted as acceptance",
+			"generated pods never carry the name the analyzer derives for a workload's pod (<workload>-1): that collision is the listed finding, replayed from /verif/known on every run",
 		}}
 	writeEvidence(ev)
 	fmt.Printf("C19 %s seed=%d: %d cells (%d distinct positions), %d commands rejected a conflict, %d failing cells, %d violations, %d known findings, %.1fs\n",
